@@ -12,8 +12,11 @@ import os
 import sys
 import traceback
 
+# tables written outside the evolution batch: version / label / migration
+# bookkeeping and the post-migrate signal handlers of contrib apps
 BOOKKEEPING_TABLES = ('django_project_version', 'django_evolution',
-                      'django_migrations')
+                      'django_migrations', 'django_content_type',
+                      'auth_permission')
 
 
 class Trace(object):
